@@ -41,11 +41,13 @@ inductive Handler
   | ptsFilter                             -- `[pt for pt in self.points if other.containsPoint(pt)]`
   | ptsSampler                            -- `IntersectionRegion(self, other, sampler=...)`
   | ptsAny                                -- `any(other.containsPoint(pt) for pt in self.points)`
+  | ptsAnyTrue                            -- `any(other._trueContainsPoint(Vector(*pt)) for pt in self.points)`
 deriving DecidableEq, Repr
 
 inductive Guard
   | lzy                -- `isLazy(self) or isLazy(other)`
   | isKind (k : Kind)  -- `isinstance(other, K)`
+  | notKind (k : Kind) -- `not isinstance(other, K)`
   | hasPoly            -- `toPolygon(other) is not None`
   | zNe                -- `self.z != other.z`
   | otherElev          -- `other.z != 0`
@@ -109,6 +111,7 @@ def Kind.hasPoly : Kind → Bool
 def Guard.eval (c : Ctl) (tried : Bool) : Guard → Bool
   | .lzy => c.la || c.lb
   | .isKind k => c.kb.isa k
+  | .notKind k => !c.kb.isa k
   | .hasPoly => !c.lb && c.kb.hasPoly
   | .zNe => c.zne
   | .otherElev => c.eb
@@ -280,11 +283,12 @@ def runH (O : Oracle) (F : Flags) (h : Handler) (A B : Reg) : Out :=
   | .ptsFilter => .res (.pts (A.points.filter (fun p => containsPoint F B p)))
   | .ptsSampler => .res (.comp .intersect A B true)
   | .ptsAny => .bool (A.points.any (fun p => containsPoint F B p))
+  | .ptsAnyTrue => .bool (A.points.any (fun p => trueContains F B p))
 
 /-- `self := PolygonalRegion(polygon=self.polygons, z=…)` -/
 def liftReg (z : ZSrc) (A B : Reg) : Reg :=
   match A with
-  | .foot s => .planar (z.pick 0 B.zz) s
+  | .foot s => if B.isLazy then .lzy (.planar (z.pick 0 B.zz) s) else .planar (z.pick 0 B.zz) s
   | r => r
 
 def exec (O : Oracle) (F : Flags) (op : Op) : Route → Reg → Reg → Out
@@ -300,7 +304,7 @@ def exec (O : Oracle) (F : Flags) (op : Op) : Route → Reg → Reg → Out
   | .crash, _, _ => .crash
   | .fuel, _, _ => .crash
 
-def fuelBound : Nat := 8
+def fuelBound : Nat := 16
 
 /-- the model of `A.op(B)` -/
 def dispatch (T : Table) (O : Oracle) (F : Flags) (op : Op) (A B : Reg) : Out :=
